@@ -22,6 +22,7 @@ import EdzedModel.Gen.TranslatedCronCfg
 import EdzedProofs.CronCfgTie
 import EdzedProofs.IntervalTie
 import EdzedProofs.CronTiming
+import EdzedProofs.CronTimingDemo
 
 namespace Edzed.Cron
 
@@ -1184,6 +1185,35 @@ theorem translated_cron_timing_wp_bounds_sleeps (E : TimedEnv P) (M d : Rat) (Φ
   · exact ⟨h.1, h.2.1⟩
 
 end timing
+
+/-! ### the hypotheses are satisfiable (EdzedProofs/CronTimingDemo.lean)
+
+`Demo.demoE`: the world is the wall clock (rational seconds), a reading returns it, `time.sleep(d)` advances it by
+`d`, awaited sleeps return up to 1 ms late, no jumps; timetable 00:00 / 08:00 / 16:00 (`Demo.demo_ttok`). -/
+
+open Edzed.Cron.Demo in
+/-- the environment assumptions and the timetable assumptions of `…_service_every_pass` hold in the demo
+    environment: every pass of the translated loop, from its initial state at any clock value, is a `GoodPass` -/
+example (N : Nat) (w : Rat) : allPasses demoE 28800 (GoodPass demoE 28800) N (mtInit : MtLocals Tod Rat) w :=
+  translated_cron_timing_service_every_pass demoE 28800 28800 rfl
+    (by norm_num [lamServe, demoE, ttError]) (by norm_num [demoE]) (by norm_num [secPerDay])
+    (fun _ => demo_ttok) N w
+
+open Edzed.Cron.Demo in
+/-- a concrete positioned state (`Demo.demo_known`: heading for 08:00, last reading 05:33:20): the pass serves
+    08:00 with a reading at most 1 ms + … late, for every behaviour of the environment -/
+example : wp demoE 28800 (PassOutcome demoE demoTT 3 1 t08 28800 28800 (demoE.off (20000 + 1 / 2))
+      (28800 + 2 / 1000) 7) (mtStep demoP demoL (20000 + 1 / 2)) :=
+  translated_cron_timing_pass_serves_alarm demoE demoTT 3 1 t08 28800 28800 (1 / 1000) (28800 + 2 / 1000)
+    demoL (20000 + 1 / 2) demo_known 0 demo_A (by norm_num [secPerDay])
+    (by norm_num [demoE]) (by norm_num [demoE]) (by norm_num [demoE, secPerDay])
+
+open Edzed.Cron.Demo in
+/-- … and the hypotheses of `…_resync_pass` / `…_no_alarm_skipped` (a well-formed timetable) are those of
+    `Demo.demo_ttok`; the window hypothesis of `…_sleeptime_is_distance` holds for the reading 05:33:20 and 08:00 -/
+example : secondsUntil demoP t08 (demoP.timeOf (20000 : Rat)) = 28800 - 20000 :=
+  translated_cron_timing_sleeptime_is_distance demoE t08 (20000 : Rat) 28800 0 demo_A
+    (by norm_num [demoE, secPerDay]) (by norm_num [demoE, secPerDay])
 
 /-! ### the "sleeps for a day" defect (repaired by 5cd81d8) as a machine-checked counterexample -/
 
